@@ -29,6 +29,7 @@ var table = map[string]struct {
 	"C13": {"model_checking", checks.C13},
 	"C14": {"fault_enumeration", checks.C14},
 	"C15": {"fault_enumeration", checks.C15},
+	"C16": {"model_checking", checks.C16},
 	"C18": {"model_checking", checks.C18},
 	"C19": {"model_checking", checks.C19},
 	"C11": {"model_checking", checks.C11},
